@@ -44,7 +44,7 @@ def expectedMapRanges : List (String × String × String × String) := [
   ("internal/resolver/resolve.go", "printVarTypes", "varInfo", "collect-then-sort"),
   ("internal/resolver/resolve.go", "printVarTypes", "varInfo[funcName]", "collect-then-sort"),
   ("internal/resolver/toposort.go", "sortedKeys", "m", "collect-then-sort"),
-  ("parser/parser.go", "parser.checkMultiExprs", "p.multiExprs", "min-reduce")]
+  ("parser/parser.go", "parser.checkMultiExprs", "p.multiExprs", "min-reduce-lex")]
 
 /-- the closures handed to IterVars / IterFuncs (they see the entries in map order) -/
 def expectedIterCallbacks : List (String × String × String × String) := [
